@@ -186,7 +186,7 @@ WriteConf(cfg, a, prev, L, fill, res, out) ==
                 /\ res.n <= Min2(L, prev.L) => SubSeq(out, 1, res.n) = SubSeq(prev.out, 1, res.n)
     /\ (P("C07") \/ P("C20") \/ P("C14") \/ P("C19")) =>
           ((IsOk(res) /\ Accepts(cfg)) => (res.n <= Len(out) /\ IsImage(cfg, SubSeq(out, 1, res.n))))
-    /\ (P("C16") \/ P("C20")) =>
+    /\ (P("C16") \/ P("C20") \/ P("C14") \/ P("C19")) =>
           /\ ~IsPanic(res)
           /\ Accepts(cfg) => (IsOk(res) \/ (IsErr(res) /\ res.e = "OutputTooSmall"))
           /\ ~Accepts(cfg) => (IsErr(res) /\ WriteErrAllowed(cfg, AsErr(res)))
@@ -790,7 +790,7 @@ Conf(ev) ==
       \* write_into_unchecked into exactly the announced size, after ANOTHER builder was sized in between
       [] ev.op = "write_unchecked" -> /\ Len(ev.out) = ev.len
                                       /\ WriteConf(bld.cfg, None, None, ev.len, ev.fill, ev.res, ev.out)
-                                      /\ (P("C06") \/ P("C07") \/ P("C20")) =>
+                                      /\ (P("C06") \/ P("C07") \/ P("C20") \/ P("C14") \/ P("C19") \/ P("C17")) =>
                                             (Accepts(bld.cfg) => (ev.len = Size(bld.cfg) /\ IsOk(ev.res) /\ ev.res.n = ev.len))
       [] ev.op = "get_padding" -> GetPaddingConf(bld.cfg, ev.res)
       [] ev.op \in {"item_write", "chunk_write"} -> StandaloneConf(ev)
